@@ -46,6 +46,17 @@ type vfcFlushScn struct {
 	Pipe    bool            `json:"pipe"` // batch2: Dispatch + Receive; otherwise Batch: Exec
 	Keys    []string        `json:"keys"`
 	Flushes [][]vfcFlushCmd `json:"flushes"`
+	// dimension audit: mixed use of ONE client - TxnPer[i] (when present) says whether flush i is bracketed by Put("multi") /
+	// Put("exec") (the sender's keepalive ping is a plain flush on a transactional client): the client-global
+	// transactionEnable / transactionNode of one flush must not leak into the next
+	TxnPer []bool `json:"txn_per,omitempty"`
+}
+
+func (scn *vfcFlushScn) txnOf(i int) bool {
+	if i < len(scn.TxnPer) {
+		return scn.TxnPer[i]
+	}
+	return scn.Txn
 }
 
 func vfcFlushKeyNode(k string) int { return vfdoubles.ClusterSlot(k) * 3 / 16384 }
@@ -114,7 +125,7 @@ func vfcFlushOne(s *vfutil.Session, tag string, scn *vfcFlushScn) {
 	putClass := map[int]string{}
 	for fi, fl := range scn.Flushes {
 		b := c.NewBatcher(scn.Pipe)
-		if scn.Txn {
+		if scn.txnOf(fi) {
 			b.Put("multi")
 		}
 		var toks []string
@@ -126,10 +137,14 @@ func vfcFlushOne(s *vfutil.Session, tag string, scn *vfcFlushScn) {
 				s.Count("flush_put_refused_" + cm.Name)
 			}
 		}
-		if scn.Txn {
+		if scn.txnOf(fi) {
 			b.Put("exec")
 		}
-		flushToks = append(flushToks, strings.Join(toks, ","))
+		if len(scn.TxnPer) > 0 {
+			flushToks = append(flushToks, map[bool]string{true: "T", false: "N"}[scn.txnOf(fi)]+strings.Join(toks, ","))
+		} else {
+			flushToks = append(flushToks, strings.Join(toks, ","))
+		}
 		var ferr error
 		if scn.Pipe {
 			if ferr = b.Dispatch(); ferr == nil {
@@ -173,7 +188,7 @@ func vfcFlushOne(s *vfutil.Session, tag string, scn *vfcFlushScn) {
 	// the sender's transactional path (Props.C19.txn_flush_ack_one_node): an acknowledged flush bracketed by
 	// Put("multi") / Put("exec") was executed by ONE node, and the cluster client sent neither MULTI nor EXEC
 	// (an execution inside a server-side transaction carries its id in Txn)
-	if scn.Txn {
+	if scn.Txn || len(scn.TxnPer) > 0 {
 		nodeOf := map[int]int{}
 		for _, e := range execs {
 			nodeOf[e.ID] = e.Node
@@ -183,6 +198,9 @@ func vfcFlushOne(s *vfutil.Session, tag string, scn *vfcFlushScn) {
 			}
 		}
 		for _, a := range acked {
+			if !scn.txnOf(a.flush) {
+				continue
+			}
 			first := -1
 			for _, cm := range a.cmds {
 				if nd, ok := nodeOf[cm.ID]; ok {
@@ -344,7 +362,62 @@ func vfcFlushAll(s *vfutil.Session, idx *int) {
 			s.Count("flush_corpus")
 		}
 	}
+	// dimension audit: degenerate but legal keys - the EMPTY key "" (CRC16 of nothing: slot 0), a key of slot 16383, a key
+	// with an empty hash tag `{}` (the whole key is hashed) - alone, in one-node flushes, and in a multi-key command over two nodes
+	{
+		last := ""
+		for i := 0; i < 200000 && last == ""; i++ {
+			if k := fmt.Sprintf("z%d", i); vfdoubles.ClusterSlot(k) == 16383 {
+				last = k
+			}
+		}
+		keys := []string{"", last, "{}x", "k{" + vfcFlushTags(0, 1, "deg")[0] + "}", "k{" + vfcFlushTags(2, 1, "deg")[0] + "}"}
+		for mi, md := range [][2]bool{{false, false}, {false, true}, {true, false}, {true, true}} {
+			scn := &vfcFlushScn{Name: fmt.Sprintf("deg%d", mi), Txn: md[0], Pipe: md[1], Keys: keys}
+			scn.Flushes = [][]vfcFlushCmd{
+				{{1, "set", []int{0}}},                           // the empty key alone
+				{{2, "set", []int{0}}, {3, "set", []int{3}}},     // with a key of the same node (node 0)
+				{{4, "set", []int{1}}},                           // slot 16383
+				{{5, "set", []int{2}}},                           // `{}x`
+				{{7, "del", []int{0, 1}}},                        // "" (node 0) and slot 16383 (node 2): refused at Put
+			}
+			run(scn)
+			s.Count("flush_degenerate_keys")
+		}
+	}
 	r := vfutil.NewRand(vfutil.Seed() + 1907)
+	// mixed use of one client: transactional and plain flushes alternate; a transactional flush over two nodes (refused,
+	// reported - the replay goes on here to see the NEXT flush: the harness restarts the replay with the following flushes on
+	// the same client state is not possible, so the refused flush comes LAST or the flush before a plain two-node flush is an
+	// accepted transactional one)
+	for k := 0; k < vfutil.Scale(8, 80); k++ {
+		for _, pipe := range []bool{false, true} {
+			scn := vfcFlushGen(r.Fork(), fmt.Sprintf("x%d", k), false, pipe, "", true)
+			// regenerate the flushes: T one-node, N two-node, T one-node, N lone refused / T two nodes
+			keysOn := func(nd int) []int {
+				var out []int
+				for i, kk := range scn.Keys {
+					if vfcFlushKeyNode(kk) == nd {
+						out = append(out, i)
+					}
+				}
+				return out
+			}
+			id := 1
+			set := func(k int) vfcFlushCmd { c := vfcFlushCmd{id, "set", []int{k}}; id++; return c }
+			a, b := r.Intn(3), 0
+			b = (a + 1 + r.Intn(2)) % 3
+			scn.Flushes = [][]vfcFlushCmd{
+				{set(keysOn(a)[0]), set(keysOn(a)[1])},
+				{set(keysOn(a)[0]), set(keysOn(b)[0])},
+				{set(keysOn(b)[0]), set(keysOn(b)[2])},
+				{set(keysOn(b)[1]), set(keysOn(a)[2])},
+			}
+			scn.TxnPer = []bool{true, false, true, r.Bool()}
+			run(scn)
+			s.Count("flush_mixed_client")
+		}
+	}
 	i := 0
 	for _, txn := range []bool{false, true} {
 		for _, pipe := range []bool{false, true} {
